@@ -3,7 +3,7 @@ from runner import Stream
 import vlib, gens
 from props.C02 import finding_class
 
-PROP_MODULES = ["Vlsp.Props.C01", "Vlsp.Props.C02", "Vlsp.Props.C02Gha", "Vlsp.Props.C02Go"]
+PROP_MODULES = ["Vlsp.Props.C01", "Vlsp.Props.C02", "Vlsp.Props.C02Gha", "Vlsp.Props.C02Go", "Vlsp.Props.C02Pypi"]
 EXTRA_SCAN = ["Vlsp/Spec/Decision.lean", "Vlsp/Spec/RefEco.lean"]
 RULE = ("per ecosystem (npm, pnpm, jsr, crates, go, gha): (spec, version batches in random order, tag map, prerelease "
         "setting) -> real Cache filled, real compare_version + generate_diagnostics; compared with the Lean checker model "
